@@ -99,3 +99,4 @@ MANIFEST = {
     "technique": "runtime monitoring: shadow-state monitor (running minimum, reward ledger) + structural invariant check after every transition",
     "design_ref": "DESIGN.md section 4 / C09",
 }
+MANIFEST["text"] += ' Round 7: a second search on other instances of the same shape alternating on the same env object (both monitored).'
